@@ -116,9 +116,28 @@ static uint8_t hl_snap_state[SIM_MAXFD]; /* 0 none, 1 taken, 2 used */
 static int64_t hl_snap_fail_us[SIM_MAXFD][SIM_MAXSRV];
 static int64_t hl_snap_time[SIM_MAXFD];
 static int64_t hl_snap_first_tx[SIM_MAXFD];
+static int     hl_legal(const int *cnt, int srv, int *minc_out, int *first_out);
 static void    mon_health_connect(int fd, int srv, int is_tcp)
 {
-  (void)srv;
+  /* A stream connection opened on a channel that uses datagrams is the move to TCP after a truncated reply.  It is
+   * a fresh choice of server, made in this instant (the connect call is the observable moment), not a re-send to
+   * whoever truncated: the server must be among those with the fewest failures, the first of them without rotation. */
+  if (is_tcp && !(app_cfg.flags & ARES_FLAG_USEVC) && !app_in_set_servers && srv >= 0 && srv < SIM_MAXSRV && hl_configured[srv] &&
+      hl_last_read_serial != 0 && hl_last_read_serial <= sim_npkt && sim_pktinfo[hl_last_read_serial - 1].tc &&
+      sim_pktinfo[hl_last_read_serial - 1].t_read == sim_now_us && sim_faults_fired == 0 &&
+      !(sim_pktinfo[hl_last_read_serial - 1].txidx >= 0 && sim_pktinfo[hl_last_read_serial - 1].txidx < sim_ntx &&
+        sim_tx[sim_pktinfo[hl_last_read_serial - 1].txidx].probe_like)) {
+    /* (a probe copy that is truncated stays with the server it probes) */
+    int minc = 0, first = -1;
+    int legal = hl_legal(hl_cnt, srv, &minc, &first);
+    int need  = app_cfg.rotate ? 1 : 3;
+    MON_EVAL("health_tcp_upgrade_destination");
+    if ((legal & need) != need) {
+      vh_violation("health:tcp-upgrade-to-worse-server",
+                   "after a truncated reply the query was taken to TCP on server %d (%d consecutive failures) while the fewest is %d "
+                   "(first such server: %d, rotation %s)", srv, hl_cnt[srv], minc, first, app_cfg.rotate ? "on" : "off");
+    }
+  }
   if (is_tcp && fd >= 0 && fd < SIM_MAXFD) {
     memcpy(hl_snap[fd], hl_cnt, sizeof(hl_snap[fd]));
     memcpy(hl_snap_fail_us[fd], hl_last_fail_us, sizeof(hl_snap_fail_us[fd]));
@@ -245,6 +264,7 @@ static void mon_health_tx(sim_tx_t *tx, const sdns_query_t *q, const uint8_t *ms
     /* (same try: if the library counted a failed attempt since - the re-send itself could not be sent - this
      * transmission is a fresh attempt and goes where fresh attempts go) */
     sim_note("health_same_server_edns_downgrade");
+    tx->probe_like = sim_tx[prev].probe_like; /* (a probe stays a probe) */
     return; /* the one resend that deliberately goes back to the same server */
   }
   hl_decisions++;
@@ -464,6 +484,61 @@ static void mon_health_anchor_final(void)
       }
     }
   }
+  /* "each ... timeout demotes it": datagram attempts that were never answered and are re-sent in the same instant T
+   * each ran into their timeout at T, and each of those is one failure report for the server at T (probes that time
+   * out add reports without a re-send, so reports >= re-sends) */
+  for (i = 0; i < sim_ntx && sim_faults_fired == 0; i++) {
+    sim_tx_t *a = &sim_tx[i];
+    int       k, R = 0, F = 0, first = 1;
+    int64_t   T = -1;
+    if (!a->wellformed || a->probe_like || a->srv < 0 || a->moved_by_list_change || a->tcp || a->action != SA_SILENT) {
+      continue;
+    }
+    for (j = i + 1; j < sim_ntx; j++) {
+      if (sim_tx[j].qid == a->qid && sim_tx[j].qtype == a->qtype && !strcmp(sim_tx[j].qname, a->qname)) {
+        T = sim_tx[j].t;
+        break;
+      }
+    }
+    if (T < 0 || a->lib_timeout_after_us < 0 || T < a->t + a->lib_timeout_after_us) {
+      continue; /* not re-sent, or re-sent before its own timeout (moved along with a sibling whose timeout closed the
+                   connection, list change, connection error) */
+    }
+    for (k = 0; k < sim_ntx; k++) {
+      const sim_tx_t *b = &sim_tx[k];
+      int             j2;
+      if (b->srv != a->srv || !b->wellformed || b->probe_like || b->moved_by_list_change || b->tcp || b->action != SA_SILENT ||
+          b->lib_timeout_after_us < 0 || b->t + b->lib_timeout_after_us > T) {
+        continue;
+      }
+      for (j2 = k + 1; j2 < sim_ntx; j2++) {
+        if (sim_tx[j2].qid == b->qid && sim_tx[j2].qtype == b->qtype && !strcmp(sim_tx[j2].qname, b->qname)) {
+          if (sim_tx[j2].t == T) {
+            R++;
+            if (k < i) {
+              first = 0; /* this group was judged when its first member came up */
+            }
+          }
+          break;
+        }
+      }
+    }
+    if (!first || R < 2) {
+      continue;
+    }
+    for (k = 0; k < ss_n; k++) {
+      if (ss_ev[k].srv == a->srv && !ss_ev[k].success && ss_ev[k].t == T) {
+        F++;
+      }
+    }
+    MON_EVAL("health_timeouts_counted");
+    if (F < R) {
+      vh_violation("health:timeouts-undercounted",
+                   "%d unanswered datagram attempts on server %d ran into their timeout in the same instant and were re-sent, but only %d failure(s) "
+                   "were reported for that server then", R, a->srv, F);
+      return;
+    }
+  }
   /* every delivered answer has a success event of the sending server at the time it was read */
   for (i = 0; i < app_ntok; i++) {
     app_tok_t *t = &app_tok[i];
@@ -533,6 +608,10 @@ static void gen_failover(vh_rng_t *rng)
     gen_srv_mood(s, moods[vh_below(rng, sizeof(moods) / sizeof(int))], rng);
     s->w_udp[SA_DUP] = 0;
     s->w_udp[SA_TC]  = 0;
+    if (vh_chance(rng, 1, 4)) {
+      s->w_udp[SA_TC]     = 30; /* some servers truncate now and then (the stream connection always answers) */
+      s->w_tcp[SA_ANSWER] = 100;
+    }
     s->delay_min_ms  = 1;
     s->delay_max_ms  = vh_range(rng, 1, 40);
     s->tcp_connect   = 1;
@@ -597,7 +676,11 @@ static void gen_failover(vh_rng_t *rng)
   app_sched.idle_ms_after                           = 50;
   n                                                 = vh_range(rng, 4, 30);
   for (i = 0; i < n; i++) {
-    t += (int64_t)vh_below(rng, 400) * 1000;
+    /* mostly spread out; now and then two or three requests in the same instant (on a silent server they also run
+     * into their timeouts in the same instant) */
+    if (!(i > 0 && vh_chance(rng, 1, 4))) {
+      t += (int64_t)vh_below(rng, 400) * 1000;
+    }
     gen_add_token(rng, t);
   }
   /* servers change behaviour over time */
@@ -607,6 +690,10 @@ static void gen_failover(vh_rng_t *rng)
   }
   if (vh_chance(rng, 1, 4)) {
     gen_add_action((int64_t)(vh_rand64(rng) % (uint64_t)(t + 1)), AA_SET_SERVERS, 0, 0);
+  }
+  if (vh_chance(rng, 1, 5)) {
+    /* everything outstanding is cancelled at some point (probe copies included): the history goes on afterwards */
+    gen_add_action((int64_t)(vh_rand64(rng) % (uint64_t)(t + 1)), AA_CANCEL, 0, 0);
   }
 }
 
